@@ -205,7 +205,9 @@ M("C07-twin-F4b-repaired", {"C07": None},
 M("C07-twin-mask-slice", {"C07": None},
   (_DP, "    endpoints = list(itertools.accumulate(stacked_series_lengths))\n", "    endpoints = list(itertools.accumulate(stacked_series_lengths))[:-1]\n"),
   (_DP, "    endpoints.pop()\n", ""))
-M("C07-twin-mask-array", {"C07": None}, (_DP, "    template[[endpoint - 1 for endpoint in endpoints]] = 0\n", "    template[np.array(endpoints) - 1] = 0\n"))
+M("C07-twin-mask-int-array", {"C07": None}, (_DP, "    template[[endpoint - 1 for endpoint in endpoints]] = 0\n", "    template[np.array(endpoints, dtype=int) - 1] = 0\n"))
+# numpy.array([]) is float64: with one series the index array cannot index (IndexError) - found by a round-2 sub-agent
+M("C07-mask-float-index-array", {"C07": "C07.R2"}, (_DP, "    template[[endpoint - 1 for endpoint in endpoints]] = 0\n", "    template[np.array(endpoints) - 1] = 0\n"))
 
 # ---------------------------------------------------------------- C18
 _S = "admm/solver.py"
